@@ -43,8 +43,10 @@ def acceptor_case(own, peer, rng, user_first=False):
     return ann, lens, delivered, err
 
 
-def requester_case(own, peer, rng):
-    ae = N.applicationentity.ClientAE('SCU', supported_ts=[N.TS_UID['T1']], max_pdu_length=own)
+def requester_case(own, peer, rng, entity_max=None):
+    """entity_max: the requesting entity is configured with another maximum than the one this association is created
+    with (AssociationRequester(ae, max_pdu_length, remote) is public): the association's own value is what counts."""
+    ae = N.applicationentity.ClientAE('SCU', supported_ts=[N.TS_UID['T1']], max_pdu_length=own if entity_max is None else entity_max)
     ae.add_scu(N.Recorder([N.AS_UID['S2']]))
     remote = {'aet': 'SCP', 'address': 'peer', 'port': 104}
     reply = N.pdu.AAssociateAcPDU.decode(N.ac_bytes('SCP', 'SCU', [{'id': 1, 'res': 0, 'ts': N.TS_UID['T1']}], peer))
@@ -67,11 +69,14 @@ def main(tier='quick'):
     cases, metas = [], []
     for own in grid:
         for peer in grid:
-            for role in ('acceptor', 'requester', 'acceptor-maxlen-not-first'):
+            for role in ('acceptor', 'requester', 'acceptor-maxlen-not-first', 'requester-own-maximum'):
                 meta = {'role': role, 'configured': own, 'peer_announced': peer}
                 try:
                     if role == 'requester':
                         ann, lens, delivered, err = requester_case(own, peer, rng)
+                    elif role == 'requester-own-maximum':
+                        meta['entity_configured'] = 65536 if own != 65536 else 1024
+                        ann, lens, delivered, err = requester_case(own, peer, rng, entity_max=meta['entity_configured'])
                     else:
                         ann, lens, delivered, err = acceptor_case(own, peer, rng, user_first=(role != 'acceptor'))
                 except Exception as exc:      # noqa
@@ -103,8 +108,8 @@ def main(tier='quick'):
 def replay(doc):
     meta = doc['replay']
     rng = random.Random(0)
-    if meta['role'] == 'requester':
-        ann, lens, delivered, err = requester_case(meta['configured'], meta['peer_announced'], rng)
+    if meta['role'].startswith('requester'):
+        ann, lens, delivered, err = requester_case(meta['configured'], meta['peer_announced'], rng, entity_max=meta.get('entity_configured'))
     else:
         ann, lens, delivered, err = acceptor_case(meta['configured'], meta['peer_announced'], rng, meta['role'] != 'acceptor')
     c = {'kind': 'maxlen', 'own': N.limbs(meta['configured']), 'ann': N.limbs(ann or 0), 'peer': N.limbs(meta['peer_announced']),
